@@ -234,7 +234,7 @@ impl Monitor for C05 {
         } else {
             (2, Rng::derive(self.seed, 0x0504, k - self.n_gen - self.n_comp, 0))
         };
-        let max_plain = self.tier.pick(60_000, 300_000);
+        let max_plain = self.tier.pick(200_000, 500_000);
         let (label, base) = match src {
             0 => match streams::generator_stream(&mut r, max_plain) {
                 Some(s) => (format!("generator: {}", s.recipe), s.bytes),
